@@ -439,6 +439,10 @@ func (gs *GenState) genRejected(r *rand.Rand, m *Model) Op {
 			}
 			c := gs.genCfg(r)
 			c.Metric, c.Prec = pick(r, []string{"euclidean", "cosine"}), "float32"
+			if r.Intn(3) == 0 {
+				// valid in every respect except a NaN maintenance threshold (see execOn): nothing may be left behind
+				return Op{K: "create", Idx: pick(r, free), Cfg: c, T: 1, Expect: "reject"}
+			}
 			switch r.Intn(3) {
 			case 0:
 				c.Metric, c.Prec = "euclidean", "int8"
